@@ -8,6 +8,7 @@
 mod maps;
 mod replay;
 mod stacks;
+mod tables;
 mod util;
 
 use std::env;
@@ -24,6 +25,8 @@ fn main() {
         "stacks-drive" => stacks::drive(rest),
         "maps-replay" => util::run_cases(rest, maps::replay_case),
         "maps-drive" => maps::drive(rest),
+        "table-replay" => util::run_cases(rest, tables::replay_case),
+        "table-drive" => tables::drive(rest),
         other => {
             eprintln!("unknown command {other}");
             std::process::exit(2);
